@@ -88,6 +88,9 @@ type c14Caller struct {
 	sentAt   time.Duration
 	reqID    int32
 	seenByTC bool
+	// kind: which request the caller sends (0 begin, 1 lock query, 2 branch
+	// register, 3 global commit, 4 global rollback, 5 branch report)
+	kind int
 	// writeFailed: the write of the request was refused (kind "werr")
 	writeFailed bool
 	deliv       []time.Duration // instants a reply for this request was handed to the client's handler
@@ -169,10 +172,18 @@ func runC14(t *testing.T, seed uint64, planJSON []byte, tier string) (res *Resul
 		}
 		tc.Hook = func(sess int, f *simtc.Frame) bool {
 			m := f.Body
-			if m.Code != simtc.TGlobalBegin || callers == nil {
+			if callers == nil {
 				return false
 			}
-			c := callers[m.Name]
+			var c *c14Caller
+			switch m.Code {
+			case simtc.TGlobalBegin:
+				c = callers[m.Name]
+			case simtc.TGlobalLockQuery, simtc.TBranchRegister, simtc.TGlobalCommit, simtc.TGlobalRollback, simtc.TBranchReport:
+				// (the callers of an episode use the request kinds of a transaction's
+				// life; each is told apart by the xid it names)
+				c = callers[m.Xid]
+			}
 			if c == nil {
 				return false
 			}
@@ -213,12 +224,24 @@ func runC14(t *testing.T, seed uint64, planJSON []byte, tier string) (res *Resul
 					})
 				}
 			}
-			resp := &simtc.Msg{Code: simtc.TGlobalBeginResult, Result: simtc.ResultSuccess, Xid: "xid-for-" + m.Name}
+			resp := &simtc.Msg{Code: simtc.ResultCodeFor(m.Code), Result: simtc.ResultSuccess}
+			switch m.Code {
+			case simtc.TGlobalBegin:
+				resp.Xid = "xid-for-" + m.Name
+			case simtc.TGlobalLockQuery:
+				resp.Lockable = true
+			case simtc.TBranchRegister:
+				resp.BranchID = c14BranchOf(c.name)
+			case simtc.TGlobalCommit:
+				resp.GlobalStatus = simtc.GSCommitted
+			case simtc.TGlobalRollback:
+				resp.GlobalStatus = simtc.GSRollbacked
+			}
 			fr := &simtc.Frame{Type: simtc.FrameResponse, Codec: f.Codec, ID: f.ID, Body: resp}
 			send := func(d time.Duration, tag string) {
 				sim.Post(fmt.Sprintf("tc-reply|%d|%010d%s", sess, uint32(f.ID), tag), d, "", func() {
 					if net.IsOpen(sess) {
-						sim.Logf("TC-> s%d reply to %s (%s)", sess, m.Name, c.act)
+						sim.Logf("TC-> s%d reply to %s (%s)", sess, c.name, c.act)
 						net.ToClient(sess, simtc.EncodeFrame(fr))
 					}
 				})
@@ -244,8 +267,12 @@ func runC14(t *testing.T, seed uint64, planJSON []byte, tier string) (res *Resul
 		// callers of kind "werr": the write of their request meets an error (the
 		// request never leaves the client)
 		net.WriteHookFrame = func(sid int, f *simtc.Frame) error {
-			if f.Body != nil && f.Body.Code == simtc.TGlobalBegin && callers != nil {
-				if c := callers[f.Body.Name]; c != nil && c.act == "werr" {
+			if f.Body != nil && callers != nil {
+				c := callers[f.Body.Name]
+				if c == nil {
+					c = callers[f.Body.Xid]
+				}
+				if c != nil && c.act == "werr" {
 					c.writeFailed = true
 					return errors.New("simnet: write failed (injected)")
 				}
@@ -262,7 +289,7 @@ func runC14(t *testing.T, seed uint64, planJSON []byte, tier string) (res *Resul
 			parkedBefore := parkedInResponseDelivery()
 			var list []*c14Caller
 			for j, a := range ep.Callers {
-				c := &c14Caller{name: fmt.Sprintf("c14-%d-%d", i, j), act: a}
+				c := &c14Caller{name: fmt.Sprintf("c14-%d-%d", i, j), act: a, kind: j % 6}
 				callers[c.name] = c
 				list = append(list, c)
 			}
@@ -295,7 +322,7 @@ func runC14(t *testing.T, seed uint64, planJSON []byte, tier string) (res *Resul
 						c.done = true
 						c.doneAt = sim.Now()
 					}()
-					c.resp, c.err = getty.GetGettyRemotingClient().SendSyncRequest(message.GlobalBeginRequest{TransactionName: c.name, Timeout: 60 * time.Second})
+					c.resp, c.err = getty.GetGettyRemotingClient().SendSyncRequest(c14Request(c.name, c.kind))
 				})
 			}
 			t0 := sim.Now()
@@ -396,13 +423,43 @@ func checkC14(sim *simkit.Sim, idx int, ep *C14Episode, list []*c14Caller, fresh
 			}
 		}
 		if c.err == nil {
-			r, ok := c.resp.(message.GlobalBeginResponse)
-			if !ok {
-				v("own-response", "wrong-type", "caller %s got %T", c.name, c.resp)
-				return
-			}
-			if r.Xid != "xid-for-"+c.name {
-				v("own-response", "foreign-response", "caller %s received xid %q (someone else's reply)", c.name, r.Xid)
+			switch c.kind {
+			case 0:
+				r, ok := c.resp.(message.GlobalBeginResponse)
+				if !ok {
+					v("own-response", "wrong-type", "caller %s got %T", c.name, c.resp)
+					return
+				}
+				if r.Xid != "xid-for-"+c.name {
+					v("own-response", "foreign-response", "caller %s received xid %q (someone else's reply)", c.name, r.Xid)
+				}
+			case 1:
+				if r, ok := c.resp.(message.GlobalLockQueryResponse); !ok || !r.Lockable {
+					v("own-response", "wrong-type", "caller %s (lock query) got %T %+v", c.name, c.resp, c.resp)
+					return
+				}
+			case 2:
+				if r, ok := c.resp.(message.BranchRegisterResponse); !ok {
+					v("own-response", "wrong-type", "caller %s (branch register) got %T", c.name, c.resp)
+					return
+				} else if r.BranchId != c14BranchOf(c.name) {
+					v("own-response", "foreign-response", "caller %s received branch id %d (someone else's reply)", c.name, r.BranchId)
+				}
+			case 3:
+				if _, ok := c.resp.(message.GlobalCommitResponse); !ok {
+					v("own-response", "wrong-type", "caller %s (global commit) got %T", c.name, c.resp)
+					return
+				}
+			case 4:
+				if _, ok := c.resp.(message.GlobalRollbackResponse); !ok {
+					v("own-response", "wrong-type", "caller %s (global rollback) got %T", c.name, c.resp)
+					return
+				}
+			case 5:
+				if _, ok := c.resp.(message.BranchReportResponse); !ok {
+					v("own-response", "wrong-type", "caller %s (branch report) got %T", c.name, c.resp)
+					return
+				}
 			}
 			if len(c.deliv) == 0 {
 				v("own-response", "response-from-nowhere", "caller %s returned a response but none was delivered", c.name)
@@ -465,3 +522,34 @@ func checkC14(sim *simkit.Sim, idx int, ep *C14Episode, list []*c14Caller, fresh
 }
 
 func init() { engines["C14"] = runC14 }
+
+// c14BranchOf: the branch id the coordinator grants to the registration that
+// names xid (unique per caller).
+func c14BranchOf(name string) int64 {
+	var h int64 = 7
+	for _, ch := range name {
+		h = h*131 + int64(ch)
+	}
+	if h < 0 {
+		h = -h
+	}
+	return h%1000000000 + 1
+}
+
+// c14Request: the request of a caller; every kind names the caller in a field
+// the coordinator can read (transaction name / xid).
+func c14Request(name string, kind int) interface{} {
+	switch kind {
+	case 1:
+		return message.GlobalLockQueryRequest{BranchRegisterRequest: message.BranchRegisterRequest{Xid: name, BranchType: 0, ResourceId: "c14-res", LockKey: "T:1"}}
+	case 2:
+		return message.BranchRegisterRequest{Xid: name, BranchType: 0, ResourceId: "c14-res", LockKey: "T:2"}
+	case 3:
+		return message.GlobalCommitRequest{AbstractGlobalEndRequest: message.AbstractGlobalEndRequest{Xid: name}}
+	case 4:
+		return message.GlobalRollbackRequest{AbstractGlobalEndRequest: message.AbstractGlobalEndRequest{Xid: name}}
+	case 5:
+		return message.BranchReportRequest{Xid: name, BranchId: 4711, Status: 2, ResourceId: "c14-res"}
+	}
+	return message.GlobalBeginRequest{TransactionName: name, Timeout: 60 * time.Second}
+}
